@@ -530,6 +530,46 @@ def extract_dbg(stderr, marker):
     return "\n".join(out)
 
 
+def rust_debug_string(lit):
+    """The text of a Rust `{:?}` string literal (with its quotes)."""
+    body = lit[1:-1]
+    out = []
+    i = 0
+    while i < len(body):
+        c = body[i]
+        if c == "\\" and i + 1 < len(body):
+            n = body[i + 1]
+            if n == "u" and body[i + 2:i + 3] == "{":
+                j = body.index("}", i)
+                out.append(chr(int(body[i + 3:j], 16)))
+                i = j + 1
+                continue
+            out.append({"n": "\n", "t": "\t", "r": "\r", "0": "\0"}.get(n, n))
+            i += 2
+        else:
+            out.append(c)
+            i += 1
+    return "".join(out)
+
+
+def lexems_from_dbg(block):
+    """`dbg!(&self.lexems)` pretty output -> [{"k": <variant>, "s": [chars]}] (purely syntactic)."""
+    toks = []
+    cur = None
+    for ln in block.split("\n"):
+        t = ln.strip()
+        if t in ("[", "]", "") or t == "),":
+            continue
+        if t.endswith("("):
+            cur = t[:-1]
+        elif t.startswith('"'):
+            toks.append({"k": cur, "s": list(rust_debug_string(t.rstrip(",")))})
+            cur = None
+        elif t.endswith(","):
+            toks.append({"k": t[:-1], "s": []})
+    return toks
+
+
 def split_list(out, ncols):
     """NUL separated `into list` output -> rows of ncols cells (strings)."""
     txt = out.decode("utf-8", "replace")
